@@ -290,6 +290,29 @@ func showMapped(ms []mapped) string {
 	return "ok " + strings.Join(s, ",")
 }
 
+// StepOp runs one op of the routing language (a `map` batch through the real
+// PointsWriter.MapShards, anything else through the metadata harness).
+func StepOp(m *metah.M, op string) string { return stepOp(m, op) }
+
+// Dropped maps the batch of a `map` op on m and reports, per point, its timestamp and whether
+// MapShards dropped it (nil if the mapping failed).
+func Dropped(m *metah.M, op string) (ts []int64, dropped []bool) {
+	f := strings.Fields(op)
+	pts := parsePts(f[4])
+	ms, err := doMap(m, metah.Nm(f[2]), metah.Nm(f[3]), pts)
+	if err != nil {
+		return nil, nil
+	}
+	for i, x := range ms {
+		ts = append(ts, pts[i].t)
+		dropped = append(dropped, x.dropped)
+	}
+	return
+}
+
+// SeriesHash is the hash of the i-th series the batches are built from.
+func SeriesHash(i int) uint64 { return series[i%len(series)].hash }
+
 func stepOp(m *metah.M, op string) string {
 	f := strings.Fields(op)
 	if f[0] == "map" {
